@@ -808,12 +808,8 @@ func (m *Dense) RankOne(a Matrix, alpha float64, x, y Vector) {
 		panic(ErrShape)
 	}
 
-	if a != m {
-		aU, _ := untransposeExtract(a)
-		if rm, ok := aU.(*Dense); ok {
-			m.checkOverlap(rm.RawMatrix())
-		}
-	}
+	aU, _ := untransposeExtract(a)
+	m.checkOverlapMatrix(aU)
 
 	var xmat, ymat blas64.Vector
 	fast := true
